@@ -171,6 +171,19 @@ pub fn judge_lax(
                     format!("{}: stop error {:?} but the fault is: {}", entry, e, f.describe()),
                     bytes,
                 );
+            } else if !f.accepts(e) {
+                // "records the fault": the record has to describe it (layer, offset, byte counts,
+                // length source - the same truthfulness C07 demands of every error)
+                let what = match e {
+                    NErr::Len { layer, src, .. } => format!("{:?}/{:?}", layer, src),
+                    other => other.class().to_string(),
+                };
+                let fields = super::c07::untruthful_fields(f, e);
+                rep.violation(
+                    &format!("lax_untruthful_stop_error|{}|{:?}|{}|{}", entry, f.kind, fields, what),
+                    format!("{}: stop error {:?} does not describe the fault: {}", entry, e, f.describe()),
+                    bytes,
+                );
             } else if !f.stop_layers.contains(l) {
                 rep.violation(
                     &format!("lax_wrong_stop_layer|{}|{:?}|{:?}", entry, f.kind, l),
